@@ -37,6 +37,7 @@ type Contract struct {
 	Line     int
 	Lets     []*LetDef
 	Sums     bool // ghost sums UT/UTA are maintained while verifying this function
+	Covers   []string // extra properties whose obligations (callee demands) arise inside this function
 }
 
 type LetDef struct {
@@ -66,7 +67,7 @@ type SpecDB struct {
 }
 
 var clauseKeywords = map[string]bool{"func": true, "loop": true, "requires": true, "ensures": true, "modifies": true,
-	"sweep": true, "modular": true, "trusted": true, "invariant": true, "pure": true, "unroll": true, "names": true, "let": true, "end": true, "sums": true, "demands": true}
+	"sweep": true, "modular": true, "trusted": true, "invariant": true, "pure": true, "unroll": true, "names": true, "let": true, "end": true, "sums": true, "demands": true, "covers": true}
 
 func ParseSpecs(lines []SpecLine) *SpecDB {
 	db := &SpecDB{Contracts: map[string]*Contract{}, Pures: map[string]*PureDef{}}
@@ -187,6 +188,8 @@ func ParseSpecs(lines []SpecLine) *SpecDB {
 			cur.Sweep = append(cur.Sweep, parseProps(it.rest)...)
 		case "sums":
 			cur.Sums = true
+		case "covers":
+			cur.Covers = append(cur.Covers, parseProps(it.rest)...)
 		case "modular":
 			cur.Modular = true
 		case "trusted":
